@@ -48,6 +48,7 @@ struct VfRun {
   int poison_mode = 4; uint64_t poison_seed = 1;
   int opi = 0; std::string opname;
   bool ended = false; bool faulted_open = false; bool recovered = false;
+  uint64_t api_calls = 0;
   const StreamRef *preset = nullptr;      // stream built once by the caller (fault enumeration re-executes one scenario many times)
   std::vector<int> op_callbacks;          // callbacks the primary handle's source served during each op (index = op index)
 
@@ -93,6 +94,7 @@ struct VfRun {
     long r;
     if (how == 2) {
       cookie_io_functions_t io = {ck_read, nullptr, ck_seek, ck_close};
+      H.sf.read_faults_only = true;
       H.fp = fopencookie(&H.sf, "rb", io); setvbuf(H.fp, nullptr, _IOFBF, (size_t)std::max<int64_t>(16, f.i("stdiobuf", 512)));
       r = ov_open(H.fp, H.vf, ib ? initial.data() : nullptr, ib);
       if (r) { H.sf.n_close = 0; }   // caller still owns FILE; we leave it (closing it is the caller's business, not counted)
@@ -123,7 +125,7 @@ struct VfRun {
   // ---- one API call wrapper: stack scribble, fp env, clock budget
   template <class F> auto api(const char *name, F f) -> decltype(f()) {
     g_sim.cur_op = opi; g_sim.cur_op_name = name; g_sim.op_events = 0; g_sim.op_budget = op_budget();
-    stack_scribble(poison_mode, poison_seed + opi);
+    if (name[3] == 'r' && name[4] == 'e' && (++api_calls & 31)) stack_scribble_small(poison_mode, poison_seed + opi); else stack_scribble(poison_mode, poison_seed + opi);   // ov_read*: full-depth scribble every 32nd call
     FpEnv e0 = fpenv();
     auto r = f();
     FpEnv e1 = fpenv();
